@@ -13,41 +13,12 @@
    the code's strconv.Quote / raw writing). *)
 From Coq Require Import String List NArith ZArith Bool.
 From J5V.lib Require Import Outcome Corr.
-From J5V.model Require Import ProtoPrintLit ProtoPrint ProtoPrintCorr ProtoPrintFile ProtoParseFile ProtoPrintFileWf.
+From J5V.model Require Import ProtoPrintLit ProtoPrint ProtoLex ProtoLayout ProtoPrintCorr ProtoPrintFile ProtoParseFile ProtoPrintFileWf ProtoPrintFileErase.
 Import ListNotations.
 Local Open Scope N_scope.
 Local Open Scope bool_scope.
 
 (* a token as the lexer delivers it: identifier, numeric literal, string literal (raw text), punctuation *)
-Inductive rtok := RId (s : list N) | RNum (s : list N) | RStr (s : list N) | RSym (c : N)
-                | RDet (c : list N) | RLead (c : list N).
-
-Definition sym_token (c : N) : option token :=
-  if c =? 59 then Some TSemi else if c =? 61 then Some TEq
-  else if c =? 40 then Some TLParen else if c =? 41 then Some TRParen
-  else if c =? 60 then Some TLt else if c =? 62 then Some TGt
-  else if c =? 46 then Some TDot else if c =? 58 then Some TColon
-  else if c =? 123 then Some TLBrace else if c =? 125 then Some TRBrace
-  else if c =? 91 then Some TLBrack else if c =? 93 then Some TRBrack
-  else if c =? 44 then Some TComma else None.
-
-(* a sign and the literal after it are one literal of the option-value layer *)
-Fixpoint coalesce (l : list rtok) : option (list token) :=
-  match l with
-  | [] => Some []
-  | RSym c :: r =>
-      if c =? 45 then
-        match r with
-        | RNum s :: r' | RId s :: r' => option_map (cons (TLit (45 :: s))) (coalesce r')
-        | _ => None
-        end
-      else match sym_token c, coalesce r with Some t, Some ts => Some (t :: ts) | _, _ => None end
-  | RId s :: r => option_map (cons (TIdent s)) (coalesce r)
-  | RNum s :: r | RStr s :: r => option_map (cons (TLit s)) (coalesce r)
-  | RDet c :: r => option_map (cons (TDetached c)) (coalesce r)
-  | RLead c :: r => option_map (cons (TLeading c)) (coalesce r)
-  end.
-
 (* ------------------------------------------------------------------ content of a descriptor *)
 Definition cmt_eqb (a b : cmt) : bool :=
   list_eqb bytes_eqb (c_det a) (c_det b) && bytes_eqb (c_lead a) (c_lead b).
@@ -128,11 +99,28 @@ Definition dfile_content_eqb (a b : dfile) : bool :=
   && list_eqb delem_eqb (d_body a) (sorted_elems (d_body b)).
 
 (* the second text is the first one (the oracle compares the texts; the harness makes no case otherwise) *)
-Inductive c05file := CFile (imp : xsymtab) (d : dfile) (toks : list rtok) (d2 : dfile).
+(* text: the bytes PrintFile wrote for d; toks: its tokens by the real lexer, with the leading comments the
+   re-parsed descriptor attributes to its declarations inserted as pseudo tokens *)
+Inductive c05file := CFile (imp : xsymtab) (d : dfile) (text : list N) (toks : list rtok) (d2 : dfile).
+
+Definition rtok_eqb (a b : rtok) : bool :=
+  match a, b with
+  | RId x, RId y | RNum x, RNum y | RStr x, RStr y | RDet x, RDet y | RLead x, RLead y => bytes_eqb x y
+  | RSym x, RSym y => x =? y
+  | _, _ => false
+  end.
+Definition is_cmt_rtok (t : rtok) : bool := match t with RDet _ | RLead _ => true | _ => false end.
+
+(* the model lexer on the printed bytes gives the real lexer's tokens *)
+Definition lex_agrees (text : list N) (toks : list rtok) : bool :=
+  match lex_text text with
+  | Some rs => list_eqb rtok_eqb rs (filter (fun t => negb (is_cmt_rtok t)) toks)
+  | None => false
+  end.
 
 Definition c05_file_check (c : c05file) : bool :=
   match c with
-  | CFile imp d toks d2 =>
+  | CFile imp d text toks d2 =>
       match coalesce toks with
       | Some t1 =>
           list_eqb token_eqb (print_file_tokens (to_symtab (dfile_symtab imp d)) d) t1
@@ -143,6 +131,9 @@ Definition c05_file_check (c : c05file) : bool :=
              end
           && wf_dfile_b imp d && wf_dfile_b imp d2
           && strings_plain d && strings_plain d2
+          && lex_agrees text toks
+          && is_layout (print_file_tokens_nc (to_symtab (dfile_symtab imp d)) d) text
+          && is_layout (print_file_tokens_nc (to_symtab (dfile_symtab imp d2)) d2) text
       | None => false
       end
   end.
@@ -150,7 +141,7 @@ Definition c05_file_check (c : c05file) : bool :=
 (* which of the three parts fails (for the harness' diagnostics): 0 = ok *)
 Definition c05_file_diag (c : c05file) : N :=
   match c with
-  | CFile imp d toks d2 =>
+  | CFile imp d text toks d2 =>
       match coalesce toks with
       | Some t1 =>
           if negb (list_eqb token_eqb (print_file_tokens (to_symtab (dfile_symtab imp d)) d) t1) then 1
@@ -163,7 +154,10 @@ Definition c05_file_diag (c : c05file) : N :=
                 | None => 4
                 | Some d' => if negb (dfile_content_eqb d' d2) then 5
                              else if negb (wf_dfile_b imp d) then 6 else if negb (wf_dfile_b imp d2) then 7
-                             else if negb (strings_plain d && strings_plain d2) then 8 else 0
+                             else if negb (strings_plain d && strings_plain d2) then 8
+                             else if negb (lex_agrees text toks) then 10
+                             else if negb (is_layout (print_file_tokens_nc (to_symtab (dfile_symtab imp d)) d) text) then 11
+                             else if negb (is_layout (print_file_tokens_nc (to_symtab (dfile_symtab imp d2)) d2) text) then 12 else 0
                 end
             end
       | None => 9
